@@ -15,6 +15,7 @@ ROOT = os.path.dirname(os.path.dirname(os.path.abspath(__file__)))
 sys.path.insert(0, ROOT)
 
 EXIT_OK, EXIT_VIOLATION, EXIT_HARNESS = 0, 1, 3
+from symx.paths import REPO_PKG as _REPO_PKG
 
 
 class Case(object):
@@ -55,7 +56,7 @@ def _start_monitor():
 
         def on_start(code, off):
             fn = code.co_filename
-            if fn.startswith("/repo/src/spectrum"):
+            if fn.startswith(_REPO_PKG):
                 _FUNCS.add("%s:%s" % (os.path.basename(fn), code.co_qualname))
             return mon.DISABLE
         mon.register_callback(tid, mon.events.PY_START, on_start)
@@ -465,8 +466,9 @@ def write_evidence(cid, tier, seed, mod, cases, results, recs, counts, violation
     ev = dict(property_id=cid, tier=tier, seed=seed, level="other", coverage=cov,
               assumptions=getattr(mod, 'ASSUMPTIONS', []) + ["library kernel model: " + s for s in stubs],
               wall_s=round(wall, 2), violations=len(violations))
-    os.makedirs(os.path.join(ROOT, "evidence"), exist_ok=True)
-    json.dump(ev, open(os.path.join(ROOT, "evidence", "%s.json" % cid), "w"), indent=1)
+    evdir = os.environ.get("VERIF_EVIDENCE_DIR") or os.path.join(ROOT, "evidence")     # (override: dev tooling only)
+    os.makedirs(evdir, exist_ok=True)
+    json.dump(ev, open(os.path.join(evdir, "%s.json" % cid), "w"), indent=1)
 
 
 if __name__ == "__main__":
